@@ -80,6 +80,17 @@ CHECKS = {
         "refuse to work once closed. net/http and runtime internals are not modelled.",
    technique="TLA+ composition checked by TLC; race-detector runs of the real server with recorded traces validated against the specs",
    engine="relic-concurrency"),
+ "C10": dict(cat="model_checking", design="§4 C10",
+   text="spec/Timestamp.tla: cache lookup, authorities tried in configured order with 13 reply behaviours, final self-check; "
+        "OnlyGenuine, NeverSilentlyOmitted, FirstGenuineWins, TriedInOrder, GenuineSuffices checked by TLC for up to 3 authorities "
+        "x 5 cache modes, 7 negative controls; verifier decision Accept over integer time points. Binding: every behaviour replayed "
+        "on the real tsclient -> pkcs9.TimestampAndMarshal against harness-owned RFC 3161 authorities (own CMS/DER encoder) and a fake "
+        "memcached; the whole verifier grid (validity windows x attested time x now x grafted countersignature) on relic's real "
+        "chain validation.",
+   note="Trusted: the harness's CMS encoder (tokens it produces are accepted by relic when genuine and by construction differ in one "
+        "respect otherwise), Go's x509 verifier for time windows. Legacy Microsoft style and per-signer timestamp variants not replayed.",
+   technique="TLA+ spec + TLC exhaustive; spec behaviours replayed on the real timestamp client and verifier",
+   engine="timestamp"),
 }
 
 NOT_YET = {}
